@@ -173,6 +173,8 @@ class Run:
         self.qvars = []
         self._in_finding = False
         self.entry_frame = None
+        self.foreign_vars = {}
+        self.loop_stack = []
 
     # ---------------------------------------------------------------- decisions / assumptions
     def assume(self, cond):
@@ -541,6 +543,18 @@ class Run:
         """writeback=True: `v` is the new value of a container that was mutated in place through `target`."""
         if isinstance(target, ast.Name):
             name = target.id
+            if writeback and name in self.foreign_vars.get(id(fr.owner(name) or fr), ()):
+                self.oblige(f"frame#foreign_object_mutated_through_{name}", z3.BoolVal(False), kind="frame",
+                            note=f"`{name}` aliases an object this function does not own (obtained from user code / a dependency); it is mutated in place at line {getattr(target, 'lineno', '?')}")
+            if not writeback:
+                owner = id(fr.owner(name) or fr)
+                if isinstance(v, Val) and v.foreign:
+                    self.foreign_vars.setdefault(owner, set()).add(name)
+                    for lo in self.loop_stack:
+                        # inside an (arbitrary) iteration: later iterations start with this variable possibly foreign
+                        self.x.maybe_foreign.add((lo, name))
+                else:
+                    self.foreign_vars.get(owner, set()).discard(name)
             if writeback and fr.lookup(name) is not None and name not in fr.vars and name not in fr.globals_decl:
                 # mutation through a variable of an enclosing scope
                 fr.owner(name).vars[name] = v
@@ -558,7 +572,13 @@ class Run:
                     raise EngineError(f"nonlocal {name} not found")
             lt = f.local_types.get(name) or self.x.local_type(f.finfo, name)
             if lt is not None:
+                was_foreign = isinstance(v, Val) and v.foreign
                 v = self.coerce(v, lt)
+                if was_foreign and isinstance(v, Val):
+                    v.foreign = True
+                    self.foreign_vars.setdefault(id(f), set()).add(name)
+                    for lo in self.loop_stack:
+                        self.x.maybe_foreign.add((lo, name))
             f.vars[name] = v
         elif isinstance(target, (ast.Tuple, ast.List)):
             items = ops.unpack(self, v, len(target.elts), target)
@@ -781,6 +801,11 @@ class Run:
             fr.vars[idx_name] = iv
             self.assume(iv.t >= 0)
             self.assume(iv.t <= z3.Length(seq.t))
+        for name in sorted(assigned):
+            if (ordinal, name) in x.maybe_foreign:
+                o = fr.owner(name)
+                if o is not None:
+                    self.foreign_vars.setdefault(id(o), set()).add(name)
         for inv in spec.inv:
             self.assume(self.spec_bool(inv, fr))
         variant0 = self.spec_val(spec.variant, fr).t if spec.variant else None
@@ -796,13 +821,19 @@ class Run:
                 c = self.truth(self.ev(st.test, fr))
                 if not self.branch(c):
                     raise PathEnd()  # covered by the exit alternative
+            self.loop_stack.append(ordinal)
             try:
                 try:
                     self.exec_block(st.body, fr)
                 except _Continue:
                     pass
             except _Break:
+                self.loop_stack.pop()
                 return  # leaves the loop without the else clause; continues after the loop
+            except BaseException:
+                self.loop_stack.pop()
+                raise
+            self.loop_stack.pop()
             if kind == "for":
                 fr.vars[idx_name] = Val(TInt, fr.vars[idx_name].t + 1)
             for k, inv in enumerate(spec.inv):
